@@ -28,11 +28,15 @@ Step ==
             ELSE IF DetectOK(c, f1) THEN (cpu' = c /\ ret' = <<f1>> /\ UNCHANGED cache) /\ Acc   \* cache bypassed by the hook
             ELSE Rej(e, WhyDetect(c, f1))
        [] e.k = "cpu" /\ e.op = "cached" ->
-            \* first cached call: any DetectOK result is stored; later calls must return the stored one
+            \* first call: any DetectOK result is stored.  Later calls return the stored detection (the shipped function-local static) - or,
+            \* C15 not demanding a cache, a fresh correct detection of what the hardware presents now; anything else (a stale mixture,
+            \* a cache that was overwritten with something the CPU never presented) is rejected
             LET c == CfgOf(e.a)  f1 == FlagsOf(e.r, 0) IN
             IF cache = None
             THEN IF DetectOK(c, f1) THEN ChangeThenDetect(c, f1) /\ Acc ELSE Rej(e, WhyDetect(c, f1))
-            ELSE IF <<f1>> = cache THEN ChangeThenDetect(c, f1) /\ Acc ELSE Rej(e, "cache-changed")
+            ELSE IF <<f1>> = cache THEN ChangeThenDetect(c, f1) /\ Acc
+            ELSE IF DetectOK(c, f1) THEN (cpu' = c /\ ret' = <<f1>> /\ UNCHANGED cache) /\ Acc
+            ELSE Rej(e, "cache-changed")
        [] e.k = "disp" ->
             LET fl == [i \in 1 .. NA |-> e.r[17 + i] = 1]
                 args == <<e.b[1] + 256 * e.b[2], e.b[3] + 256 * e.b[4]>>
